@@ -356,14 +356,35 @@ class Lin:
                     # that parameter): forwarding them is then free of the option
                     named_all = all(o in self.named_params for o in aff_opts)
                     extra += [a for i, a in enumerate(t.args) if a.op == "star" and i >= 1 and not (named_all and a.x.op == "rest")]
+                    def carried(d_, depth=0):
+                        """the values a mapping term may hold under one of the additive option names ([d_] itself:
+                        cannot tell)"""
+                        while d_.op == "seq":
+                            d_ = d_.value
+                        if depth > 6:
+                            return [d_]
+                        if d_.op == "kwrest":
+                            return [] if named_all else [d_]
+                        if d_.op == "dict" and all(k_ is None or k_.op == "const" for k_, _ in d_.items):
+                            # {"axis": a, "keepdims": k, **more}: a display says exactly which options it carries
+                            out_ = []
+                            for k_, v_ in d_.items:
+                                out_ += carried(v_, depth + 1) if k_ is None else ([v_] if k_.value in aff_opts else [])
+                            return out_
+                        if d_.op == "call" and d_.fn.op == "ref" and d_.fn.ref.qual == "builtins.dict" and not any(a_.op == "star" for a_ in d_.args):
+                            # dict(kwargs, axis=a, keepdims=k) / dict(axis=a) / dict(**more)
+                            out_ = [v_ for k_, v_ in d_.kw.items() if k_ in aff_opts]
+                            for a_ in list(d_.args) + list(d_.get("dstar") or []):
+                                out_ += carried(a_, depth + 1)
+                            return out_
+                        if d_.op == "bin" and d_.opname == "BitOr":
+                            return carried(d_.l, depth + 1) + carried(d_.r, depth + 1)  # kwargs | {...}
+                        if d_.op == "if":
+                            return carried(d_.then, depth + 1) + carried(d_.other, depth + 1)
+                        return [d_]
+
                     for d_ in t.get("dstar", []):
-                        if d_.op == "dict" and all(k_ is not None and k_.op == "const" for k_, _ in d_.items):
-                            # **{"axis": a, "keepdims": k}: a display says exactly which options it carries
-                            extra += [v_ for k_, v_ in d_.items if k_.value in aff_opts]
-                        elif d_.op == "call" and d_.fn.op == "ref" and d_.fn.ref.qual == "builtins.dict" and not d_.args and not d_.get("dstar"):
-                            extra += [v_ for k_, v_ in d_.kw.items() if k_ in aff_opts]  # **dict(axis=a, keepdims=k)
-                        elif not (named_all and d_.op == "kwrest"):
-                            extra.append(d_)
+                        extra += carried(d_)
                     if any(not zeroish(x_) for x_ in extra):
                         self.blame(t, f"numpy.{bn} with {' / '.join(aff_opts)} (or forwarded *args / **kwargs) adds values that do not come from the (co)tangent: affine")
                         return join(args[0], "A")
